@@ -25,35 +25,72 @@ type symGen struct {
 	json bool
 	// fixedKeys: string map keys are the concrete "k" (no key-equality forks)
 	fixedKeys bool
+	// impls: an interface with methods is populated with a value of the first type of
+	// the interface's own package that implements it (implFor)
+	impls bool
+}
+
+// implFor returns the first (by name) non-interface named type declared in the package
+// of the named interface type t that implements it, or nil.
+func implFor(t types.Type) types.Type {
+	n, ok := t.(*types.Named)
+	if !ok || n.Obj().Pkg() == nil {
+		return nil
+	}
+	it, ok := n.Underlying().(*types.Interface)
+	if !ok || it.NumMethods() == 0 {
+		return nil
+	}
+	scope := n.Obj().Pkg().Scope()
+	for _, name := range scope.Names() { // sorted
+		tn, ok := scope.Lookup(name).(*types.TypeName)
+		if !ok || !tn.Exported() || tn.IsAlias() {
+			continue
+		}
+		c, ok := tn.Type().(*types.Named)
+		if !ok || c.TypeParams().Len() > 0 {
+			continue
+		}
+		if _, isIface := c.Underlying().(*types.Interface); isIface {
+			continue
+		}
+		if types.Implements(c, it) {
+			return c
+		}
+	}
+	return nil
 }
 
 func (e *Engine) symValue(t types.Type, name string, depth, mode int) Value {
-	g := &symGen{e: e, name: name, mode: mode & 1, json: mode&2 != 0, fixedKeys: mode&4 != 0}
+	g := &symGen{e: e, name: name, mode: mode & 1, json: mode&2 != 0, fixedKeys: mode&4 != 0, impls: mode&8 != 0}
 	if mode&1 == 1 {
-		n := countTop(t)
+		n := countTop(t, g.impls)
 		g.pick = g.choose(n + 1)
 	}
 	return g.gen(t, depth, true)
 }
 
 // countTop counts the forkable positions of the outermost struct level.
-func countTop(t types.Type) int {
+func countTop(t types.Type, impls bool) int {
 	switch u := t.Underlying().(type) {
 	case *types.Pointer, *types.Slice, *types.Map:
 		return 1
 	case *types.Interface:
 		if u.NumMethods() > 0 {
+			if impls && implFor(t) != nil {
+				return 1
+			}
 			return 0
 		}
 		return 1
 	case *types.Struct:
 		n := 0
 		for i := 0; i < u.NumFields(); i++ {
-			n += countTop(u.Field(i).Type())
+			n += countTop(u.Field(i).Type(), impls)
 		}
 		return n
 	case *types.Array:
-		return int(u.Len()) * countTop(u.Elem())
+		return int(u.Len()) * countTop(u.Elem(), impls)
 	}
 	return 0
 }
@@ -186,7 +223,17 @@ func (g *symGen) gen(t types.Type, depth int, top bool) Value {
 		return a
 	case *types.Interface:
 		if u.NumMethods() > 0 {
-			return Iface{}
+			var impl types.Type
+			if g.impls {
+				impl = implFor(t)
+			}
+			if impl == nil || depth <= 0 {
+				return Iface{}
+			}
+			if fork && !g.populated() {
+				return Iface{}
+			}
+			return Iface{T: impl, V: g.gen(impl, depth, false)}
 		}
 		// `any`: rotate over the dynamic types a parser can deliver
 		k := g.anyRR % 5
